@@ -257,6 +257,10 @@ def build_world(block):
         deriv.add_clause("verif_knockout", lambda d, payoff: payoff.where(
             d.ul().spot.max(-1).values < 1.5, torch.zeros_like(payoff)))
         deriv.add_clause("verif_cap", lambda d, payoff: payoff.clamp(max=0.25))
+    if block.get("listed_self"):
+        # the HEDGED derivative is itself listed, with a quote that does not converge to its payoff
+        # (like the documented variance-swap pricer): P&L settles the payoff, never the last quote
+        deriv.list(lambda d: LISTED_PRICE(d.ul().spot, "signed") + 0.5, cost=0.0)
     if block.get("multiplier"):
         # contract multiplier (a power of two, so the payoff stays exactly representable): the payoff is
         # many orders above the hedge wealth, which the portfolio value must not feel at all
@@ -423,7 +427,7 @@ def _hedger_round(ctx, block, hedger, deriv, hedge, exact, r):
                     mini["rounds"] = [0]
                 zero_cost = any(c == 0 for c in costs) and any(c != 0 for c in costs)
                 ctx.violation("Hedger." + name,
-                              f"identity_{block['hedge']}" + ("_mixedcost" if zero_cost else "") + ("_multiplier" if block.get("multiplier") else "") + ("_subclass" if block.get("subclass") else "") + (f"_round{r}" if r else ""),
+                              f"identity_{block['hedge']}" + ("_mixedcost" if zero_cost else "") + ("_multiplier" if block.get("multiplier") else "") + ("_listedself" if block.get("listed_self") else "") + ("_subclass" if block.get("subclass") else "") + (f"_round{r}" if r else ""),
                               f"{name} != wealth identity on hedge list {block['hedge']} "
                               f"(model={block['model']}, derivative={block['derivative']}, costs={costs}, "
                               f"after {r} re-simulation(s))",
@@ -587,6 +591,12 @@ def run(ctx):
             b2 = dict(block)
             b2["call"] = False
             ctx.run("hedger_pl", b2)
+        if T == 3 and dtype == "float64" and dk in ("european", "lookback", "variance_swap") and mv in ("linear", "linear_prev") and hv in ("default", "stock", "stock+stock2"):
+            b9 = dict(block)
+            b9["listed_self"] = True
+            b9["rounds"] = [0, 1]
+            b9["pnl"] = False
+            ctx.run("hedger_pl", b9)
         if T == 3 and dk == "european" and mv in ("linear", "linear_prev") and hv in ("default", "stock+listed"):
             b6 = dict(block)
             b6["multiplier"] = 20 if dtype == "float32" else 45
